@@ -608,6 +608,12 @@ def forward_subst(stmts: list, keep: Set[str], params: Set[str], _top=True, _cou
                     for t in out[idx + 1:] for n in ast.walk(t))
             if mutated:
                 continue
+            # an object under construction (Class(...)) that is used more than once is state, not a value
+            if isinstance(val, ast.Call):
+                callee = val.func.attr if isinstance(val.func, ast.Attribute) else (val.func.id if isinstance(val.func, ast.Name) else "")
+                uses = sum(1 for t in out[idx + 1:] for n in ast.walk(t) if isinstance(n, ast.Name) and n.id == name and isinstance(n.ctx, ast.Load))
+                if callee[:1].isupper() and uses > 1:
+                    continue
             # names the value depends on must not be re-bound afterwards
             deps = names_loaded(val)
             if any(counts.get(d, 0) > 1 for d in deps if d not in params):
